@@ -141,7 +141,7 @@ theorem getNF_proj (s : OSt) :
     s'.slot = some (s.slot.getD d) ∧ s'.tn = s.tn ∧ s'.on = s.on ∧ s'.noNotify = s.noNotify ∧
     s'.self = s.self ∧ s'.ctx.nval = s.ctx.nval ∧ s'.ctx.log = s.ctx.log := by
   unfold getNF
-  cases hs : s.slot <;> simp
+  cases hs : s.slot <;> simp [hs]
 
 theorem eventNF_proj (s : OSt) (w : Id) (nv : Nat) (hn : hasNotifiers s.tn s.on = true)
     (hnn : s.noNotify = false) :
@@ -160,5 +160,153 @@ theorem eventNF_quiet_proj (s : OSt) (w : Id) (nv : Nat) (hnn : s.noNotify = tru
   cases hn : hasNotifiers s.tn s.on <;> simp [hnn]
 
 end proj
+
+/-! ### Histories -/
+
+/-- The histories property C02 speaks about: assignments, deletes, reads,
+`trait_setq`; `Uninitialized` is never assigned. -/
+def HistOk (h : List Op) : Prop :=
+  ∀ op ∈ h, op.isValue = true ∧ op ≠ .set uninit ∧ op ≠ .setq uninit
+
+/-- `Uninitialized` is neither the declared default nor produced by a validator. -/
+structure Clean (E : Env) (d : Id) : Prop where
+  dflt : d ≠ uninit
+  val : ∀ k n v w, E.validate k n v = .ok w → w ≠ uninit
+
+theorem HistOk.tail {op : Op} {h : List Op} (H : HistOk (op :: h)) : HistOk h :=
+  fun o ho => H o (List.mem_cons_of_mem _ ho)
+
+theorem specValidate_clean {E : Env} {d : Id} (cl : Clean E d) (t : TraitCore) (b : Bool) (n : Nat) (v w : Id)
+    (nv : Nat) (hv : v ≠ uninit) (h : specValidate E t b n v = (.ok w, nv)) : w ≠ uninit := by
+  unfold specValidate at h
+  cases ht : t.validate with
+  | none => simp [ht] at h; exact h.1 ▸ hv
+  | some k =>
+    simp only [ht] at h
+    split at h
+    · simp at h; exact h.1 ▸ hv
+    · simp at h; exact cl.val k n v w h.1
+
+theorem getD_clean {d : Id} {o : Option Id} (hd : d ≠ uninit) (ho : o ≠ some uninit) : o.getD d ≠ uninit := by
+  cases o with
+  | none => exact hd
+  | some x => intro h; exact ho (by simp at h; rw [h])
+
+/-- Invariant of the exactly-once argument. -/
+structure Inv (k : Nat) (kind : NKind) (s : OSt) : Prop where
+  nn : s.noNotify = false
+  uniq : UniqueIn k kind (snapshot s.tn s.on)
+  clean : s.slot ≠ some uninit
+
+section runs
+variable {E : Env} {t : TraitCore} {m : CMode} {po : Bool} {d : Id}
+
+/-- Standard traits that store the validated value: every handler's call log is
+the specification filter of the history. -/
+theorem exactly_once_run (st : StdTrait t m false po d) (q : Quiet E) (pq : PostQuiet E) (cl : Clean E d)
+    {k : Nat} {kind : NKind} (hc : kind ≠ .observe → m = .equality → Consistent E.cmp) :
+    ∀ (h : List Op) (s : OSt), HistOk h → Inv k kind s →
+      callsOf k (run E t s h).ctx.log =
+        callsOf k s.ctx.log ++ realChanges E t m false d ⟨s.slot, s.ctx.nval⟩ h
+  | [], s, _, _ => by simp [run, realChanges]
+  | op :: h, s, H, I => by
+    have Hop := H op (List.mem_cons_self)
+    have hn := I.uniq.hasNotifiers
+    have hex := I.uniq.exists
+    have hold : s.slot.getD d ≠ uninit := getD_clean cl.dflt I.clean
+    cases op with
+    | set v =>
+      have hv : v ≠ uninit := fun e => Hop.2.1 (by rw [e])
+      rw [run, step_set_nf st q pq, realChanges]
+      cases hsv : specValidate E t true s.ctx.nval v with
+      | mk r nv =>
+        cases r with
+        | error e =>
+          have I' : Inv k kind (s.withNval nv) := ⟨I.nn, I.uniq, I.clean⟩
+          simpa using exactly_once_run st q pq cl hc h (s.withNval nv) H.tail I'
+        | ok w =>
+          have hw := specValidate_clean cl t true _ v w nv hv hsv
+          obtain ⟨p1, p2, p3, p4, -, p6, p7⟩ := setNF_proj (E := E) (t := t) (m := m) (orig := false) (po := po)
+            (d := d) s v w nv hn I.nn
+          simp only [Bool.false_eq_true, if_false] at p1 p7
+          have I' : Inv k kind (setNF E t m false po d s v w nv) :=
+            ⟨p4, by rw [p2, p3]; exact I.uniq, by rw [p1]; intro e; exact hw (by simpa using e)⟩
+          have ih := exactly_once_run st q pq cl hc h _ H.tail I'
+          simp only [] at ih ⊢
+          rw [ih, p1, p6, p7]
+          have hf := fires_counts E.cmp m false po (s.slot.getD d) w hold kind hc
+          rw [← st.flags, ← st.kind] at hf
+          simp only [callsOf_append, List.append_assoc, Bool.false_eq_true, if_false]
+          congr 1
+          congr 1
+          rw [← hf]
+          by_cases hcc : (m == CMode.none || s.slot.getD d != w) = true
+          · simp [hcc, callsOf_fired I.uniq]
+          · simp [hcc]
+    | setq v =>
+      have hv : v ≠ uninit := fun e => Hop.2.2 (by rw [e])
+      rw [run, step_setq_nf st q pq, realChanges]
+      cases hsv : specValidate E t true s.ctx.nval v with
+      | mk r nv =>
+        cases r with
+        | error e =>
+          have I' : Inv k kind { (s.withNval nv) with noNotify := false } := ⟨rfl, I.uniq, I.clean⟩
+          simpa using exactly_once_run st q pq cl hc h _ H.tail I'
+        | ok w =>
+          have hw := specValidate_clean cl t true _ v w nv hv hsv
+          obtain ⟨p1, p2, p3, -, p6, p7⟩ := setNF_quiet_proj (E := E) (t := t) (m := m) (orig := false) (po := po)
+            (d := d) { s with noNotify := true } v w nv rfl
+          simp only [Bool.false_eq_true, if_false] at p1
+          have I' : Inv k kind { (setNF E t m false po d { s with noNotify := true } v w nv) with noNotify := false } :=
+            ⟨rfl, by
+              show UniqueIn k kind (snapshot (setNF E t m false po d { s with noNotify := true } v w nv).tn
+                (setNF E t m false po d { s with noNotify := true } v w nv).on)
+              rw [p2, p3]; exact I.uniq,
+             by intro e; exact hw (by simpa [p1] using e)⟩
+          have ih := exactly_once_run st q pq cl hc h _ H.tail I'
+          simp only [] at ih ⊢
+          rw [ih]
+          simp [p1, p6, p7]
+    | del =>
+      rw [run, step_del_nf st q pq, realChanges]
+      cases hs : s.slot with
+      | none =>
+        have e : delNF E t m d s = s := by simp [delNF, hs]
+        simp only [e]
+        have ih := exactly_once_run st q pq cl hc h s H.tail I
+        rw [ih, hs]
+      | some old =>
+        have ho : old ≠ uninit := fun e => I.clean (by rw [hs, e])
+        obtain ⟨p1, p2, p3, p4, -, p6, p7⟩ := delNF_proj (E := E) (t := t) (m := m) (d := d) s old hs hn hex I.nn
+        have I' : Inv k kind (delNF E t m d s) :=
+          ⟨p4, by rw [p2, p3]; exact I.uniq, by rw [p1]; intro e; exact cl.dflt (by simpa using e)⟩
+        have ih := exactly_once_run st q pq cl hc h _ H.tail I'
+        simp only [] at ih ⊢
+        rw [ih, p1, p6, p7]
+        have hf := fires_counts E.cmp m false po old d ho kind hc
+        rw [← st.flags, ← st.kind] at hf
+        simp only [callsOf_append, List.append_assoc]
+        congr 1
+        congr 1
+        rw [← hf]
+        by_cases hcc : (m == CMode.none || old != d) = true
+        · simp [hcc, callsOf_fired I.uniq]
+        · simp [hcc]
+    | get =>
+      rw [run, step_get_nf st q pq, realChanges]
+      obtain ⟨p1, p2, p3, p4, -, p6, p7⟩ := getNF_proj (t := t) (d := d) s
+      have I' : Inv k kind (getNF t d s) :=
+        ⟨p4 ▸ I.nn, by rw [p2, p3]; exact I.uniq, by rw [p1]; intro e; exact hold (by simpa using e)⟩
+      have ih := exactly_once_run st q pq cl hc h _ H.tail I'
+      simp only [] at ih ⊢
+      rw [ih, p1, p6, p7]
+    | regDyn _ _ => exact absurd Hop.1 (by simp [Op.isValue])
+    | unregDyn _ => exact absurd Hop.1 (by simp [Op.isValue])
+    | regAny _ _ => exact absurd Hop.1 (by simp [Op.isValue])
+    | unregAny _ => exact absurd Hop.1 (by simp [Op.isValue])
+    | regObs _ => exact absurd Hop.1 (by simp [Op.isValue])
+    | unregObs _ => exact absurd Hop.1 (by simp [Op.isValue])
+
+end runs
 
 end TraitsVerif.Model.Attr
